@@ -880,7 +880,9 @@ def run_C10(ctx):
         "of the model (sequence of controller commands over the hold points) is replayed on real clones of Frontend, Backend proxy and "
         "GpuBackend against a raw peer answering in arrival order with request-tagged answers; the recorded hold-point events are "
         "validated by TLC (a `sent` event inside another caller's request/answer window is the violation). Plus uncontrolled stress with "
-        "4-8 threads whose hook-recorded event order is validated the same way. distinct = distinct (endpoint, kinds, observed event order)",
+        "4-8 threads whose hook-recorded event order is validated the same way. Which public operation stands for a kind rotates over "
+        "all of them (Frontend: 11 reply-bearing and 19 acknowledged / fire-and-forget operations incl. the device-state, inflight, "
+        "config, shared-object and memory-slot calls; all 5 proxy and all 12 GPU operations). distinct = distinct (endpoint, kinds, observed event order)",
         ASSUME_COMMON + ["a thread the model says must block is observed only through the absence of its `sent` event before the holder is released; "
                          "a too short quiet period (3 ms) can hide a late arrival but never fabricate a violation"],
         viol)
@@ -1388,7 +1390,7 @@ def run_C12(ctx):
             preds["n"] += 1
             for f in ("p1", "lost", "died"):
                 preds[f] += 1 if sc[f] else 0
-            cases.append(dict(conc=True, nq=1, script=sc["script"], sched=sc["sched"], vring="rwlock" if i % 2 else "mutex",
+            cases.append(dict(conc=True, nq=1, script=sc["script"], sched=sc["sched"], wfree=sc.get("wfree", []), vring="rwlock" if i % 2 else "mutex",
                               predicted=dict(p1=sc["p1"], lost=sc["lost"], died=sc["died"])))
     ctx.notes.append(f"model (VringConc.tla, implementation-shaped) predictions over all complete schedules: {preds}")
     if ctx.tier == "quick" and len(cases) > 2500:
@@ -1414,7 +1416,9 @@ def run_C12(ctx):
     return ctx.finish("model_checking",
         "VringConc.tla models one ring with the worker thread (epoll wake-up, read_kick, enabled check, dispatch), the daemon thread "
         "(state change, epoll add/del, descriptor drop, reply) and guest kicks as separately enabled steps; TLC explores all "
-        "interleavings for the scenarios disable/enable, stop/restart, reset/enable, disable, stop, enable/disable/enable with 1 (quick) "
+        "interleavings for the scenarios disable/enable, stop/start with a fresh descriptor, stop/restart with the very eventfd the ring had "
+        "(kicks may arrive while it is stopped; extra hold point between installing the descriptor and marking the queue ready), "
+        "reset/enable, disable, stop, enable/disable/enable with 1 (quick) "
         "or 2 (thorough) kicks and prints every complete schedule; each schedule is driven through the instrumented hold points of a "
         "real daemon (every step has a positive completion signal or is skipped), and TLC validates the recorded events against the two "
         "clauses (no handler entry after a disabling reply; no kick left unprocessed on an active ring; worker alive). distinct = distinct "
@@ -1485,8 +1489,10 @@ def run_C16(ctx):
         "d.before_request / d.after_request / d.before_final_shutdown / s.after_flag and a blocking handler on a real daemon; TLC replays "
         "the executed commands as model actions (conformance) and compares wait(), the peer's view, restart on a new connection, repeated "
         "shutdown and the thread count after drop; peers that close are also run as peers that only end their own direction and keep reading "
-        "(they must see end-of-stream). serve() is run with the peer closing at every byte offset of a bodied and a body-less request.",
-        ASSUME_COMMON + ["wait() runs under a 10 s watchdog (its expiry is the 'hang' verdict); thread termination after drop is awaited for up to 10 s",
+        "(they must see end-of-stream). serve() is run with the peer closing at every byte offset of a bodied and a body-less request. "
+        "The backend's exit events are eventfd pairs in one half of the cases and the two ends of a pipe in the other; every drop of a "
+        "daemon runs on a helper thread (a join that never returns is an observation, not a hung harness).",
+        ASSUME_COMMON + ["wait() runs under a 10 s watchdog; 'hang' / 'threads left' are reported only once the watchdog has expired and the threads involved are seen asleep in a system call",
                          "a peer closing with an unread reply (ECONNRESET) is mapped to Ok by the library by design and is not part of these schedules"],
         viol)
 
